@@ -92,7 +92,7 @@ pub fn mirror_broken(w: &World) -> bool {
 pub fn slice_worth_more_than_notional(w: &World, so: &StepObs) -> bool {
     if let Act::Liq { t, v, .. } = &so.act {
         if let Some(p) = &so.pre_t(*v, t).pos {
-            let plr = w.cfg.plr;
+            let plr = w.live_cfg(*v).plr;
             if plr == 0 || p.size.is_zero() {
                 return false;
             }
@@ -724,9 +724,13 @@ pub fn ref_free_collateral(t: &TraderObs, v: &VammObs, imr: u128) -> Option<i128
     Some(min_coll - req)
 }
 
+fn cfg_fp(w: &World) -> u64 {
+    w.cfg.funding_period
+}
+
 pub fn oracle_c05(w: &World, so: &StepObs, out: &mut StepOut, pre_book: &RefBook, post_book: &RefBook) {
     let eng = w.engine.to_string();
-    let cfg = &w.cfg;
+    let cfg = &w.live_cfg(so.act.vamm_index());
     match &so.act {
         Act::Open { t, v, lev, .. } => {
             let too_low = *lev < du();
@@ -868,7 +872,7 @@ pub fn oracle_c05(w: &World, so: &StepObs, out: &mut StepOut, pre_book: &RefBook
 
 // --------------------------------------------------------------------------------------- C06 / C07
 pub fn oracle_c06_c07(w: &World, so: &StepObs, out: &mut StepOut, do6: bool, do7: bool) {
-    let cfg = &w.cfg;
+    let cfg = &w.live_cfg(so.act.vamm_index());
     let eng = w.engine.to_string();
     let ifu = w.ifund.to_string();
     if let Act::Liq { by, t, v, limit } = &so.act {
@@ -1066,7 +1070,7 @@ pub fn oracle_c11(w: &World, so: &StepObs, out: &mut StepOut, cps: &CpRef) {
             }
         }
     }
-    let cfg = &w.cfg;
+    let cfg = &w.live_cfg(so.act.vamm_index());
     let eng = w.engine.to_string();
     let ifu = w.ifund.to_string();
     match &so.act {
@@ -1261,7 +1265,7 @@ fn expected_fraction(w: &World, so: &StepObs, v: usize) -> Option<i128> {
     *w.store.0.borrow_mut() = post.kv;
     match (a, o) {
         (Some(a), Some(o)) => Some(tdiv(
-            (a.u128() as i128 - o.u128() as i128) * w.cfg.funding_period as i128,
+            (a.u128() as i128 - o.u128() as i128) * cfg_fp(w) as i128,
             86400,
         )),
         _ => None,
@@ -1273,7 +1277,7 @@ pub fn oracle_c12(w: &World, so: &StepObs, out: &mut StepOut) {
     if !so.outcome.ok {
         return;
     }
-    let cfg = &w.cfg;
+    let cfg = &w.live_cfg(so.act.vamm_index());
     let ifu = w.ifund.to_string();
     let fp = w.fee_pool.to_string();
     let eng = w.engine.to_string();
